@@ -147,6 +147,15 @@ func init() {
 		st := in.pkgType("golang.org/x/crypto/ripemd160", "digest")
 		return &IfaceV{typ: types.NewPointer(st), v: in.newHashObject("ripemd160", 20, nil)}
 	})
+	s256 := "(*crypto/sha256.digest)"
+	reg("crypto/sha256.New", func(in *Interp, fn *ssa.Function, a []Value) Value {
+		st := in.pkgType("crypto/sha256", "digest")
+		return &IfaceV{typ: types.NewPointer(st), v: in.newHashObject("sha256", 32, nil)}
+	})
+	reg(s256+".Write", hashWrite)
+	reg(s256+".Reset", hashReset)
+	reg(s256+".Sum", hashSum)
+	reg(s256+".Size", func(in *Interp, fn *ssa.Function, a []Value) Value { return in.ts.ConstU(64, 32) })
 	reg(rip+".Write", hashWrite)
 	reg(rip+".Reset", hashReset)
 	reg(rip+".Sum", hashSum)
